@@ -220,7 +220,7 @@ def run(chk, repo, tier):
     for name in tables.PTYPES:
         if not direct:
             break           # the helper is asked some other way: the transitions are evaluated through its callers below
-        _, paths, _ = analyse(repo, fpp, config={'ptype': pt(name), 'method': Const('fraunhofer')})
+        _, paths, _ = analyse(repo, fpp, config={'ptype': pt(name), 'method': Const('fraunhofer')}, literal_tables=True)
         if len(paths) != 1:
             direct = False  # the answer does not fold from the type alone
             break
@@ -250,7 +250,7 @@ def run(chk, repo, tier):
         for name in tables.PTYPES:
             want = docprop.get(name)
             facts = {nf.attr(S('wavefront'), 'ptype').single_atom(): pt(name), nf.attr(S('wavefront'), '_ptype').single_atom(): pt(name)}
-            _, ps, _ = analyse(repo, key, types={('sym', 'wavefront'): wf}, facts=facts, inline=[fpp.key], max_paths=1024)
+            _, ps, _ = analyse(repo, key, types={('sym', 'wavefront'): wf}, facts=facts, inline=[fpp.key], max_paths=1024, literal_tables=True)
             bad, seen = [], 0
             for p in ps:
                 if p.status == 'return':
